@@ -1,28 +1,31 @@
 (** C03 — the array-backed class: every method of Model/AlignedArr.v IS the
     string operation of Spec/AlignedSpec.v on rectangular, non-empty alignments. *)
 From CG3 Require Import Lib.PyZ Lib.Val Lib.PySlice Model.View Model.IndelMap Model.IndelMapFixed Model.Aligned Model.AlignedArr.
-From CG3 Require Import Spec.ViewSpec Spec.IndelMapSpec Spec.AlignedSpec Proofs.AlignedProofs.
+From CG3 Require Import Spec.ViewSpec Spec.IndelMapSpec Spec.AlignedSpec Proofs.ViewSeqProofs Proofs.AlignedProofs.
 
-Definition good (a : salign) : Prop := a <> [] /\ rect a.
+Definition good (a : salign) : Prop := a <> [] /\ rect a /\ NoDup (map fst a).
 
 Lemma d_make_ok a : good a -> d_make a = Ok a.
 Proof.
-  intros [Hne Hr]. destruct a as [|[n s] t]; [congruence|]. cbn [d_make].
+  intros (Hne & Hr & _). destruct a as [|[n s] t]; [congruence|]. cbn [d_make].
   apply rect_cons in Hr. replace (forallb _ t) with true; [reflexivity|].
   symmetry. apply forallb_forall. intros nr Hin. rewrite Forall_forall in Hr. apply Z.eqb_eq. cbn [snd]. apply (Hr _ Hin).
 Qed.
 
+Lemma names_map_rows g (a : salign) : map fst (map_rows g a) = map fst a.
+Proof. unfold map_rows. rewrite map_map. reflexivity. Qed.
+
 Lemma good_map_rows g a : uniform g -> good a -> good (map_rows g a).
 Proof.
-  intros Hu [Hne Hr]. split; [|apply rect_map_rows; assumption].
+  intros Hu (Hne & Hr & Hnd). split; [|split; [apply rect_map_rows; assumption|rewrite names_map_rows; exact Hnd]].
   destruct a; [congruence|discriminate].
 Qed.
 
 Lemma good_len a nr : good a -> In nr a -> zlen (snd nr) = slen a.
-Proof. intros [_ Hr] Hin. unfold rect, all_len in Hr. rewrite Forall_forall in Hr. apply (Hr _ Hin). Qed.
+Proof. intros (_ & Hr & _) Hin. unfold rect, all_len in Hr. rewrite Forall_forall in Hr. apply (Hr _ Hin). Qed.
 
 Lemma good_all_len a : good a -> all_len (slen a) a.
-Proof. intros [_ Hr]. exact Hr. Qed.
+Proof. intros (_ & Hr & _). exact Hr. Qed.
 
 (** ** list facts *)
 Lemma zrange_aux_prog s n : zrange_aux s n = prog s 1 n.
@@ -90,23 +93,23 @@ Proof.
     apply nth_error_None in En. unfold zlen in Hj. lia.
 Qed.
 
-Lemma d_zip_zip_app a : forall b, d_zip a b = zip_app a (srows b).
-Proof.
-  induction a as [|[n s] a IH]; intros b; [reflexivity|]. destruct b as [|[n2 t] b]; [reflexivity|].
-  cbn [d_zip srows map snd zip_app]. f_equal. apply IH.
-Qed.
+Lemma mapMr_mapM {A B} (f : A -> res B) l : mapMr f l = mapM f l.
+Proof. induction l as [|x l IH]; [reflexivity|]. cbn [mapMr mapM]. now rewrite IH. Qed.
 
-Lemma good_sub a b : good a -> b <> [] -> (forall x, In x b -> In x a) -> good b.
+Lemma d_add_eq a b : d_add a b = if negb (zlen a =? zlen b) then Err E_Value else bind (s_add_named a b) d_make.
+Proof. unfold d_add, s_add_named. rewrite mapMr_mapM. reflexivity. Qed.
+
+Lemma good_sub a b : good a -> b <> [] -> (forall x, In x b -> In x a) -> NoDup (map fst b) -> good b.
 Proof.
-  intros Ha Hne Hsub. split; [exact Hne|]. apply (all_len_rect (slen a)); [exact Hne|].
+  intros Ha Hne Hsub Hnd. split; [exact Hne|]. split; [|exact Hnd]. apply (all_len_rect (slen a)); [exact Hne|].
   apply Forall_forall. intros nr Hin. apply (good_len a nr Ha (Hsub _ Hin)).
 Qed.
 
 Lemma find_row_In' x a s : find_row x a = Some s -> In (x, s) a.
 Proof.
   unfold find_row. induction a as [|[n s0] t IH]; [discriminate|]. cbn [filter fst].
-  destruct (n =? x) eqn:E.
-  - intros H. injection H as <-. left. f_equal. lia.
+  destruct (name_eqb n x) eqn:E.
+  - intros H. injection H as <-. left. f_equal. apply name_eqb_eq, E.
   - intros H. right. apply IH, H.
 Qed.
 
@@ -158,8 +161,10 @@ Qed.
 Definition arr_ok (vr : variant) (k : kind) (a : salign) (o : aop) : Prop :=
   let n := slen a in
   match o with
-  | OAddRows rows => exists m, Forall (fun t => zlen t = m) rows
+  | OAddRows other => NoDup (map fst other) /\ exists m, Forall (fun nr => zlen (snd nr) = m) other
   | OTakePos cols negate => negate = true -> v_negate_ok vr = true \/ k = KOther
+  | OTakeSeqs arg negate => negate = false -> NoDup (norm_names arg)
+  | ORename mp => NoDup (map (rename_of mp) (map fst a))
   | OFilter _ m => 0 < m
   | OSample locs m => 0 < m /\ Forall (fun l => 0 <= l /\ (l + 1) * m <= n) locs
   | OToRna | OToDna => k <> KOther
@@ -214,9 +219,9 @@ Theorem d_apply_spec vr k a o : good a -> arr_ok vr k a o ->
   d_apply vr k a o = spec_apply k a o /\
   match spec_apply k a o with Ok ka => good (snd ka) | Err _ => True end.
 Proof.
-  intros Ha Hok. pose proof Ha as [Hne Hr]. pose proof (good_all_len a Ha) as Hal.
+  intros Ha Hok. pose proof Ha as (Hne & Hr & Hnd). pose proof (good_all_len a Ha) as Hal.
   pose proof (slen_nonneg a) as Hn0.
-  destruct o as [x y|x y c|i| | |rows|x y x' y'|cols negate|names negate|p m|x|locs m| | | |w st i];
+  destruct o as [x y|x y c|i| | |other|x y x' y'|cols negate|arg negate|p m|x|locs m| | | |w st i|mp];
     cbn [arr_ok] in Hok; cbn [d_apply spec_apply].
   - (* slice *)
     destruct (d_slice_ok k a x y Ha) as [E G]. rewrite E. split; [reflexivity|exact G].
@@ -243,37 +248,32 @@ Proof.
       change (d_map (fun s => map (comp KRna) (rev s)) a) with (map_rows (rc_str KRna) a).
       rewrite (keep_make _ _ G). split; [reflexivity|exact G].
   - (* aln + aln *)
-    unfold d_add. replace (zlen a =? zlen a) with true by lia. cbn [negb].
-    rewrite d_zip_zip_app, zip_app_self.
+    rewrite d_add_eq. replace (zlen a =? zlen a) with true by lia. cbn [negb].
+    rewrite (s_add_named_self a Hnd). cbn [bind].
     assert (G : good (map_rows (fun s => s ++ s) a)) by (apply good_map_rows; [apply uniform_app; apply uniform_id|exact Ha]).
     rewrite (keep_make k _ G). split; [reflexivity|exact G].
-  - (* aln + other *)
-    destruct (zlen rows =? zlen a) eqn:El; cbn [negb]; [|split; [reflexivity|exact I]].
-    destruct Hok as (mm & Hrows).
-    assert (Hlen : length (map fst a) = length rows) by (rewrite map_length; unfold zlen in El; lia).
-    assert (Gb : good (combine (map fst a) rows)).
-    { split.
-      - destruct a as [|[n0 s0] t]; [congruence|]. destruct rows as [|r0 rows]; [cbn [length map] in Hlen; lia|]. discriminate.
-      - apply (all_len_rect mm).
-        + destruct a as [|[n0 s0] t]; [congruence|]. destruct rows as [|r0 rows]; [cbn [length map] in Hlen; lia|]. discriminate.
-        + apply all_len_combine. exact Hrows. }
-    rewrite (d_make_ok _ Gb). cbn [bind]. unfold d_add.
-    assert (Hz : zlen a = zlen (combine (map fst a) rows)).
-    { unfold zlen. rewrite combine_length, map_length. unfold zlen in El. lia. }
-    replace (zlen a =? zlen (combine (map fst a) rows)) with true by lia. cbn [negb].
-    rewrite d_zip_zip_app, srows_combine by exact Hlen.
-    assert (G : good (zip_app a rows)).
-    { split.
-      - destruct a as [|[n0 s0] t]; [congruence|]. destruct rows as [|r0 rows]; [cbn [length map] in Hlen; lia|]. discriminate.
-      - apply (all_len_rect (slen a + mm)).
-        + destruct a as [|[n0 s0] t]; [congruence|]. destruct rows as [|r0 rows]; [cbn [length map] in Hlen; lia|]. discriminate.
-        + apply all_len_zip_app; assumption. }
-    rewrite (keep_make k _ G). split; [reflexivity|exact G].
+  - (* aln + other, rows paired by name *)
+    destruct Hok as (Hndo & mm & Hrows).
+    destruct other as [|o0 ot] eqn:Eo.
+    { cbn [d_make keep_kind bind]. destruct a as [|x a0]; [congruence|]. split; [reflexivity|exact I]. }
+    rewrite <- Eo in *.
+    assert (Go : good other).
+    { split; [rewrite Eo; discriminate|]. split; [|exact Hndo]. apply (all_len_rect mm); [rewrite Eo; discriminate|exact Hrows]. }
+    rewrite (d_make_ok _ Go). cbn [bind]. rewrite d_add_eq.
+    destruct (zlen a =? zlen other) eqn:El; cbn [negb]; [|split; [reflexivity|exact I]].
+    destruct (s_add_named a other) as [r|e] eqn:Es; cbn [bind keep_kind]; [|split; [reflexivity|exact I]].
+    assert (G : good r).
+    { pose proof (s_add_named_names a other r Es) as Hn.
+      split; [intros ->; destruct a; [congruence|discriminate]|]. split; [|rewrite Hn; exact Hnd].
+      apply (all_len_rect (slen a + mm)).
+      - intros ->. destruct a; [congruence|discriminate].
+      - apply (all_len_add_named _ _ a other r Hal Hrows Es). }
+    rewrite (d_make_ok _ G). cbn [bind]. split; [reflexivity|exact G].
   - (* aln[x:y] + aln[x':y'] *)
     rewrite (d_getitem_slice_ok a (Some x) (Some y) Ha). cbn [bind].
-    rewrite (d_getitem_slice_ok a (Some x') (Some y') Ha). cbn [bind]. unfold d_add.
+    rewrite (d_getitem_slice_ok a (Some x') (Some y') Ha). cbn [bind]. rewrite d_add_eq.
     rewrite !zlen_map_rows. replace (zlen a =? zlen a) with true by lia. cbn [negb].
-    rewrite d_zip_zip_app, zip_app_map_rows.
+    rewrite (s_add_named_map_rows _ _ a Hnd). cbn [bind].
     assert (G : good (map_rows (fun s => py_slice s (Some x) (Some y) 1 ++ py_slice s (Some x') (Some y') 1) a)).
     { apply good_map_rows; [|exact Ha]. apply uniform_app; apply uniform_py_slice; lia. }
     rewrite (keep_make k _ G). split; [reflexivity|exact G].
@@ -318,22 +318,27 @@ Proof.
                 congruence. }
               rewrite Hb. reflexivity.
   - (* take_seqs *)
-    unfold d_take_seqs. destruct negate.
-    + destruct (filter (fun nr => negb (zmem (fst nr) names)) a) as [|r0 r] eqn:Ef; [split; [reflexivity|exact I]|].
+    unfold d_take_seqs. cbv zeta. set (names := norm_names arg) in *. destruct negate.
+    + destruct (filter (fun nr => negb (nmem (fst nr) names)) a) as [|r0 r] eqn:Ef; [split; [reflexivity|exact I]|].
       assert (G : good (r0 :: r)).
-      { apply (good_sub a); [exact Ha|discriminate|]. intros z Hz. rewrite <- Ef in Hz. apply filter_In in Hz. apply Hz. }
+      { apply (good_sub a); [exact Ha|discriminate| |].
+        - intros z Hz. rewrite <- Ef in Hz. apply filter_In in Hz. apply Hz.
+        - rewrite <- Ef. apply NoDup_map_filter. exact Hnd. }
       rewrite (keep_make k _ G). split; [reflexivity|exact G].
     + change d_find with find_row.
       destruct (forallb (fun x => match find_row x a with Some _ => true | None => false end) names) eqn:Ef; [|split; [reflexivity|exact I]].
-      destruct names as [|x0 t]; [split; [reflexivity|exact I]|].
-      set (b := flat_map (fun x => match find_row x a with Some s => [(x, s)] | None => [] end) (x0 :: t)).
+      destruct names as [|x0 t] eqn:En; [split; [reflexivity|exact I]|]. rewrite <- En in *.
+      set (b := flat_map (fun x => match find_row x a with Some s => [(x, s)] | None => [] end) names).
+      assert (Hfst : map fst b = names).
+      { subst b. clear -Ef. induction names as [|x l IH]; [reflexivity|]. cbn [forallb] in Ef. apply andb_prop in Ef.
+        destruct Ef as [Hx Ht]. cbn [flat_map]. rewrite map_app, (IH Ht). destruct (find_row x a); [reflexivity|discriminate]. }
       assert (G : good b).
-      { apply (good_sub a); [exact Ha| |].
-        - subst b. cbn [forallb] in Ef. apply andb_prop in Ef. destruct Ef as [Ex _]. cbn [flat_map].
-          destruct (find_row x0 a); [discriminate|discriminate].
+      { apply (good_sub a); [exact Ha| | |].
+        - intros Eb. rewrite Eb in Hfst. rewrite En in Hfst. discriminate.
         - intros [n s] Hin. subst b. apply in_flat_map in Hin. destruct Hin as (x & _ & Hx).
           destruct (find_row x a) as [s0|] eqn:E0; [|contradiction]. destruct Hx as [Hx|[]]. injection Hx as <- <-.
-          apply find_row_In', E0. }
+          apply find_row_In', E0.
+        - rewrite Hfst. apply Hok. reflexivity. }
       rewrite (keep_make k _ G). split; [reflexivity|exact G].
   - (* filtered *)
     unfold d_filtered. replace (m <=? 0) with false by lia. change (d_len a) with (slen a).
@@ -419,6 +424,12 @@ Proof.
     assert (E2 : map_rows (fun s => py_slice s (Some (i * st)) (Some (i * st + w)) 1) a = map_rows (fun s => ssub s (i * st) (i * st + w)) a).
     { apply (map_rows_ext_len _ _ (slen a) a Hal). intros s Hs. apply py_slice_msub; lia. }
     rewrite E2 in *. split; [reflexivity|exact G].
+  - (* rename_seqs *)
+    assert (G : good (map (fun nr => (rename_of mp (fst nr), snd nr)) a)).
+    { split; [destruct a; [congruence|discriminate]|]. split; [|rewrite map_map; cbn [fst]; rewrite <- map_map; exact Hok].
+      apply (all_len_rect (slen a)); [destruct a; [congruence|discriminate]|].
+      unfold all_len in *. rewrite Forall_map. exact Hal. }
+    rewrite (keep_make k _ G). split; [reflexivity|exact G].
 Qed.
 
 (** ** chains, and the two classes against each other *)
@@ -448,7 +459,7 @@ Qed.
 
 Lemma good_astr a : AlnWF a -> good (astr a).
 Proof.
-  intros (Hne & _ & Hr). split; [|exact Hr]. unfold astr. destruct a; [congruence|discriminate].
+  intros (Hne & _ & Hr & Hnd). split; [|split; [exact Hr|rewrite astr_names; exact Hnd]]. unfold astr. destruct a; [congruence|discriminate].
 Qed.
 
 (** the array-backed and the annotatable class give identical results: same
@@ -471,15 +482,17 @@ Qed.
 Example arr_chain_example :
   good witness_rows /\
   arr_chain_ok repaired (KDna, witness_rows)
-    [OSliceStep None None (-2); ORc; OTakePos [-1; 0] false; OFilter (PGapFrac [45; 63] 1 2) 1; OAddSelf; OSample [1; 0] 2].
+    [OSliceStep None None (-2); ORc; OTakePos [-1; 0] false; OFilter (PGapFrac [45; 63] 1 2) 1; OAddSelf; OSample [1; 0] 2;
+     OAddRows [([98], [65]); ([97], [45])]; ORename [([98], [97; 50])]; OTakeSeqs (NStr [97]) true].
 Proof.
   split.
-  - split; [discriminate|]. repeat constructor.
+  - split; [discriminate|]. split; [repeat constructor|cbn; nodup_tac].
   - cbn [arr_chain_ok].
     repeat match goal with |- context [spec_keep (?k, ?r) ?o] =>
       let v := eval vm_compute in (spec_keep (k, r) o) in change (spec_keep (k, r) o) with v end.
     cbn [arr_ok fst snd]. cbn.
-    repeat split; try lia; try discriminate; try (intros; discriminate); repeat constructor; try lia.
+    repeat split; try lia; try discriminate; try (intros; discriminate); try nodup_tac;
+      try (exists 1; repeat constructor); repeat constructor; try lia.
 Qed.
 
 (** * read-only methods of the annotatable class are functions of the strings *)
@@ -575,4 +588,102 @@ Proof.
   - apply ro_names. - apply ro_num_seqs. - apply al_len_slen, Ha. - apply al_strings_spec, Ha.
   - intros n. apply ro_get_gapped_seq, Ha. - apply ro_positions, Ha. - apply ro_gap_array, Ha.
   - apply ro_count_gaps_per_pos, Ha. - apply ro_is_ragged, Ha. - apply ro_degap, Ha.
+Qed.
+
+(** ** count_gaps_per_seq, variable_positions, get_lengths *)
+
+Lemma ro_variable_positions a : AlnWF a -> al_variable_positions a = s_variable_positions (astr a).
+Proof. intros Ha. unfold al_variable_positions, s_variable_positions. now rewrite (ro_positions a Ha), (al_len_slen a Ha). Qed.
+
+Lemma ro_get_lengths canon a : AlnWF a -> al_get_lengths canon a = s_get_lengths canon (astr a).
+Proof.
+  intros Ha. unfold al_get_lengths, s_get_lengths, astr. rewrite map_map. apply map_ext_in. intros [n r] Hin. cbn [fst snd].
+  rewrite (row_gapped_spec r); [reflexivity|]. apply (AlnWF_In a n r Ha Hin).
+Qed.
+
+Lemma filter_filter_imp {A} (p q : A -> bool) l : (forall x, In x l -> p x = true -> q x = true) ->
+  filter p (filter q l) = filter p l.
+Proof.
+  induction l as [|x l IH]; intros H; [reflexivity|]. cbn [filter].
+  destruct (q x) eqn:Eq; cbn [filter].
+  - destruct (p x); rewrite IH; auto; intros y Hy; apply H; right; exact Hy.
+  - destruct (p x) eqn:Ep.
+    + rewrite (H x (or_introl eq_refl) Ep) in Eq. discriminate.
+    + apply IH. intros y Hy. apply H. right. exact Hy.
+Qed.
+
+Lemma map_znth_zrange_gen {A} (d : A) (l : list A) : forall pre,
+  map (fun i => znth d (pre ++ l) i) (zrange_aux (Z.of_nat (length pre)) (length l)) = l.
+Proof.
+  induction l as [|c l IH]; intros pre; [reflexivity|]. cbn [length zrange_aux map]. f_equal.
+  - unfold znth. replace (Z.of_nat (length pre) <? 0) with false by lia. rewrite Nat2Z.id. rewrite app_nth2 by lia.
+    now rewrite Nat.sub_diag.
+  - specialize (IH (pre ++ [c])). rewrite <- app_assoc in IH. cbn [app] in IH. rewrite app_length in IH. cbn [length] in IH.
+    replace (Z.of_nat (length pre) + 1) with (Z.of_nat (length pre + 1)) by lia. exact IH.
+Qed.
+
+Lemma zlen_filter_map {A B} (f : B -> bool) (g : A -> B) l : zlen (filter f (map g l)) = zlen (filter (fun x => f (g x)) l).
+Proof.
+  induction l as [|x l IH]; [reflexivity|]. cbn [map filter]. destruct (f (g x)); rewrite ?zlen_cons'; rewrite IH; reflexivity.
+Qed.
+
+Lemma count_true_zrange (row : list bool) :
+  zlen (filter (fun j => znth false row j) (zrange 0 (zlen row))) = zlen (filter (fun b => b) row).
+Proof.
+  unfold zrange. rewrite Z.sub_0_r. replace (Z.to_nat (zlen row)) with (length row) by (unfold zlen; lia).
+  rewrite <- (zlen_filter_map (fun b => b) (fun j => znth false row j)).
+  pose proof (map_znth_zrange_gen false row []) as H. cbn [app length] in H. change (Z.of_nat 0) with 0 in H. now rewrite H.
+Qed.
+
+Lemma ro_count_gaps_per_seq a : AlnWF a -> al_count_gaps_per_seq a = s_count_gaps_per_seq (astr a).
+Proof.
+  intros Ha. unfold al_count_gaps_per_seq, s_count_gaps_per_seq. rewrite (ro_gap_array a Ha), (al_len_slen a Ha).
+  unfold s_gap_array. rewrite map_map. apply map_ext_in. intros nr Hin.
+  pose proof (good_len _ nr (good_astr a Ha) Hin) as Hl.
+  rewrite filter_filter_imp.
+  - rewrite <- Hl, <- (zlen_map is_gapch (snd nr)). rewrite count_true_zrange. apply (zlen_filter_map (fun b : bool => b) is_gapch).
+  - intros j _ Hj. apply Z.ltb_lt.
+    assert (Hin' : In (map is_gapch (snd nr)) (filter (fun row => znth false row j) (map (fun nr0 => map is_gapch (snd nr0)) (astr a)))).
+    { apply filter_In. split; [|exact Hj]. apply in_map_iff. exists nr. auto. }
+    destruct (filter _ _) as [|x l]; [contradiction|]. rewrite zlen_cons'. pose proof (zlen_nonneg l). lia.
+Qed.
+
+Theorem readonly_more_lemma a canon : AlnWF a ->
+  al_count_gaps_per_seq a = s_count_gaps_per_seq (astr a) /\
+  al_variable_positions a = s_variable_positions (astr a) /\
+  al_get_lengths canon a = s_get_lengths canon (astr a).
+Proof.
+  intros Ha. split; [apply ro_count_gaps_per_seq, Ha|]. split; [apply ro_variable_positions, Ha|apply ro_get_lengths, Ha].
+Qed.
+
+(** ** [get_seq(name)]: the ungapped sequence of a row is the gapped string without '-',
+    for rows whose sequence holds no gap character (what [parse_out_gaps] builds) *)
+Definition NoGapData (r : arow) : Prop := Forall (fun c => c <> GAPC) (realise (adata r)).
+
+Lemma strip_fill k : forall d, Forall (fun c => c <> GAPC) d -> residues k = zlen d -> strip (fill k d) = d.
+Proof.
+  unfold strip. induction k as [|[] k IH]; intros d Hd H; cbn [residues] in H.
+  - symmetry in H. apply zlen_0_nil in H. subst. reflexivity.
+  - destruct d as [|x d]; unfold zlen in H; cbn [length] in H.
+    + pose proof (residues_nonneg' k). lia.
+    + inversion Hd as [|? ? Hx Hd']; subst. cbn [fill filter]. unfold is_res at 1.
+      replace (x =? GAPC) with false by lia. cbn [negb]. f_equal. apply IH; [exact Hd'|unfold zlen; lia].
+  - cbn [fill filter]. unfold is_res at 1. replace (GAPC =? GAPC) with true by reflexivity. cbn [negb]. apply IH; assumption.
+Qed.
+
+Lemma ro_get_seq a n : AlnWF a -> Forall (fun nr => NoGapData (snd nr)) a ->
+  al_get_seq a n = option_map strip (find_row n (astr a)).
+Proof.
+  intros Ha Hng. unfold al_get_seq. rewrite find_row_astr.
+  destruct (find_orow n a) as [r|] eqn:Ef; [|reflexivity]. cbn [option_map]. f_equal.
+  pose proof (find_orow_In _ _ _ Ef) as Hin. destruct (AlnWF_In a n r Ha Hin) as ((Hm & Hd & Hp) & _ & _).
+  rewrite Forall_forall in Hng. specialize (Hng _ Hin). cbn [snd] in Hng.
+  unfold row_str. symmetry. apply strip_fill; [exact Hng|]. rewrite <- (parent_length_residues _ Hm). exact Hp.
+Qed.
+
+Lemma no_gap_of_string k s r : row_of_string k s = Ok r -> NoGapData r.
+Proof.
+  unfold row_of_string. destruct (fresh_spec k (strip s)) as (d & E & _ & Hr & _). rewrite E. cbn [of_view bind].
+  intros H. injection H as <-. unfold NoGapData. cbn [adata]. rewrite Hr. unfold strip. apply Forall_forall.
+  intros c Hc. apply filter_In in Hc. destruct Hc as [_ Hc]. unfold is_res in Hc. intros ->. discriminate.
 Qed.
